@@ -469,7 +469,7 @@ namespace jsonpointer {
             }
             std::size_t index{0};
             auto result = jsoncons::dec_to_integer(buffer.data(), buffer.length(), index);
-            if (!result)
+            if (!result || (buffer.length() > 1 && buffer[0] == '0')) // RFC 6901: no leading zeros in an array index
             {
                 ec = jsonpointer_errc::invalid_index;
                 return current;
@@ -510,7 +510,7 @@ namespace jsonpointer {
             }
             std::size_t index{0};
             auto result = jsoncons::dec_to_integer(buffer.data(), buffer.length(), index);
-            if (!result)
+            if (!result || (buffer.length() > 1 && buffer[0] == '0')) // RFC 6901: no leading zeros in an array index
             {
                 ec = jsonpointer_errc::invalid_index;
                 return current;
@@ -760,7 +760,7 @@ namespace jsonpointer {
             {
                 std::size_t index{0};
                 auto result = jsoncons::dec_to_integer(buffer.data(), buffer.length(), index);
-                if (!result)
+                if (!result || (buffer.length() > 1 && buffer[0] == '0')) // RFC 6901: no leading zeros in an array index
                 {
                     ec = jsonpointer_errc::invalid_index;
                     return;
@@ -901,7 +901,7 @@ namespace jsonpointer {
             {
                 std::size_t index{0};
                 auto result = jsoncons::dec_to_integer(buffer.data(), buffer.length(), index);
-                if (!result)
+                if (!result || (buffer.length() > 1 && buffer[0] == '0')) // RFC 6901: no leading zeros in an array index
                 {
                     ec = jsonpointer_errc::invalid_index;
                     return;
@@ -1046,7 +1046,7 @@ namespace jsonpointer {
             {
                 std::size_t index{0};
                 auto result = jsoncons::dec_to_integer(buffer.data(), buffer.length(), index);
-                if (!result)
+                if (!result || (buffer.length() > 1 && buffer[0] == '0')) // RFC 6901: no leading zeros in an array index
                 {
                     ec = jsonpointer_errc::invalid_index;
                     return;
@@ -1155,7 +1155,7 @@ namespace jsonpointer {
             {
                 std::size_t index{};
                 auto result = jsoncons::dec_to_integer(buffer.data(), buffer.length(), index);
-                if (!result)
+                if (!result || (buffer.length() > 1 && buffer[0] == '0')) // RFC 6901: no leading zeros in an array index
                 {
                     ec = jsonpointer_errc::invalid_index;
                     return;
